@@ -538,6 +538,13 @@ func (w *World) WalkReferrers(repo, subject, filter string) (descs []RefDesc, pa
 		if err := json.Unmarshal(rs.Body, &idx); err != nil {
 			return descs, pages, sizes, hdrs, "response is not valid JSON"
 		}
+		if idx.Manifests == nil && prob == "" {
+			// "an empty index": the image-spec requires the manifests array, null or absent is not an index
+			prob = fmt.Sprintf("the answer has no manifests array: %.120s", rs.Body)
+		}
+		if (idx.SchemaVersion != 2 || idx.MediaType != MTIndex) && prob == "" {
+			prob = fmt.Sprintf("the answer is not an OCI index (schemaVersion %d, mediaType %q)", idx.SchemaVersion, idx.MediaType)
+		}
 		descs = append(descs, idx.Manifests...)
 		sizes = append(sizes, len(rs.Body))
 		hdrs = append(hdrs, rs.H)
